@@ -13,7 +13,10 @@ PINS = [('plasTeX/__init__.py', 'VerbatimEnvironment.invoke'), ('plasTeX/__init_
         ('plasTeX/Base/LaTeX/Math.py', 'math.source'), ('plasTeX/Base/LaTeX/Math.py', 'displaymath.source'),
         ('plasTeX/Base/LaTeX/Math.py', 'mathjax_lt_gt'), ('plasTeX/Base/LaTeX/Math.py', 'AngleReplacingDelimiter.invoke'),
         ('plasTeX/Base/LaTeX/Arrays.py', 'Array.source'), ('plasTeX/Base/TeX/Text.py', 'bgroup.source'),
-        ('plasTeX/Base/TeX/Primitives.py', 'MathShift.invoke'), ('plasTeX/Base/TeX/Primitives.py', 'SuperScript.invoke')]
+        ('plasTeX/Base/TeX/Primitives.py', 'MathShift.invoke'), ('plasTeX/Base/TeX/Primitives.py', 'SuperScript.invoke'),
+        ('plasTeX/TeX.py', 'TeX.readArgumentAndSource'), ('plasTeX/TeX.py', 'TeX.readCharacter'), ('plasTeX/TeX.py', 'TeX.readOptionalSpaces'),
+        ('plasTeX/TeX.py', 'TeX.expandTokens'), ('plasTeX/Base/LaTeX/Environments.py', 'begin.invoke'),
+        ('plasTeX/Base/TeX/Primitives.py', 'BoxCommand.parse')]
 RULE = ('verbatim / verbatim* environments (\\begin..\\end, and \\verbatim..\\endverbatim) with bodies over the full printable ASCII alphabet, '
         'newlines, ^^-sequences, comment-/ligature-like sequences, with every proper prefix of both end markers inserted at every position of a '
         'set of base bodies; exhaustive bodies over a 6-symbol alphabet; bodies containing a complete end marker or none (malformed stream); '
@@ -24,7 +27,8 @@ RULE = ('verbatim / verbatim* environments (\\begin..\\end, and \\verbatim..\\en
         'equation and inside \\textbf/\\emph/\\section/\\footnote arguments; written with insignificant blanks only (exact comparison of '
         'node.source with the Model) or with blanks/newlines anywhere (comparison blanks aside). '
         'Non-trivial = a verbatim/\\verb body of >= 3 characters with at least one special character, or a formula of >= 4 nodes.')
-TRUSTED = ['modelled, not verified: how plasTeX parses a formula into nodes and argument pieces (the generator supplies the node tree; C05/C07), '
+TRUSTED = ['modelled (Model/MathParse.v, tied on every math case: parsed tree = generator tree, source = node.source), with a hand-written signature table '
+           'for the grammar vocabulary; user-macro expansion is done by the generator (C02); '
            'TeX.__iter__ handing Letter/Other tokens through unexpanded, Context.push/pop restoring the category codes (C04), '
            'Environment.digest collecting the tokens as children, DOM textContent']
 ASSUMPTIONS = ['the category codes in force around the verbatim material are the default ones (escape \\, groups { })',
@@ -858,7 +862,10 @@ def model_input(case):
         return [0, cps(case['env']), cps(case['body'] + closing + case['after'])]
     if case['kind'] == 'verb':
         return [1, cps(verb_tail(case))]
-    return [2, wrap_tree(case['wrap'], expand_E(case['E']))]
+    E = expand_E(case['E'])
+    a, b = {'bracket': ('\\[', '\\]'), 'equation': ('\\begin{equation}', '\\end{equation}')}.get(case['wrap'], ('$', '$'))
+    # the tree of the generator, and the author's formula (macros expanded) as characters for the Model's tokenizer + parser
+    return [5, wrap_tree(case['wrap'], E), 0, cps(a + plain_latex(E) + b)]
 
 
 def worker_init():
@@ -996,6 +1003,12 @@ def judge(case, io, mo):
                     what='reconstructed source %r re-tokenizes to %s, the author wrote %s' % (s, got, want))
     if mo[:1] != [0]:
         return dict(violation=False, key='C11:math:model', what='model answer %s' % (mo,))
+    if mo[3:] != [1, mo[1], 1, 1, 0 if angle else 1]:
+        # Model/MathParse.v on the tokens of the formula: closed, the parsed tree is the generator's tree (so its source is the
+        # same), the tokens are canonical and the nodes well formed (the hypotheses of C11_formula_roundtrip hold on this case)
+        return dict(violation=False, key='C11:math:parse-model', expected=''.join(chr(c) for c in mo[1]),
+                    what='the parser Model gives closed=%s tree-equal=%s canon,wf=%s source %r, the tree of the generator prints %r' % (
+                        mo[3], mo[5] if len(mo) > 5 else None, mo[6:], ''.join(chr(c) for c in mo[4]) if len(mo) > 4 else None, ''.join(chr(c) for c in mo[1])))
     if case['mode'] == 'exact':
         if src != mo[1] or mj != mo[2]:
             return dict(violation=False, key='C11:math:model-mismatch', expected=''.join(chr(c) for c in mo[1]),
